@@ -31,6 +31,8 @@ pub struct DeletionQuery {
     pub nodes: Vec<NodeDelete>,
     pub node_log: Vec<NodeDeletionEntry>,
     pub updated_nodes: Vec<Node>,
+    //modification date of the updated nodes before they were re-dated
+    pub updated_nodes_previous_dates: Vec<i64>,
     pub edges: Vec<EdgeDelete>,
     pub edge_log: Vec<EdgeDeletionEntry>,
 }
@@ -46,6 +48,7 @@ impl DeletionQuery {
             nodes: Vec::new(),
             node_log: Vec::new(),
             updated_nodes: Vec::new(),
+            updated_nodes_previous_dates: Vec::new(),
             edges: Vec::new(),
             edge_log: Vec::new(),
         };
@@ -92,6 +95,7 @@ impl DeletionQuery {
                     //the source row is only touched when a reference is really removed
                     if deletion_query.edges.len() > found_before {
                         let mut node = *node;
+                        deletion_query.updated_nodes_previous_dates.push(node.mdate);
                         node.mdate = date;
                         deletion_query.updated_nodes.push(node);
                     }
@@ -132,6 +136,13 @@ impl DeletionQuery {
         for log in &self.node_log {
             daily_log.set_need_update(log.room_id, &log.entity, log.mdate);
             daily_log.set_need_update(log.room_id, &log.entity, log.deletion_date);
+        }
+        //the source node of a reference deletion is re-dated and re-signed: both days change
+        for (node, previous_date) in self.updated_nodes.iter().zip(&self.updated_nodes_previous_dates) {
+            if let Some(room_id) = &node.room_id {
+                daily_log.set_need_update(*room_id, &node._entity, node.mdate);
+                daily_log.set_need_update(*room_id, &node._entity, *previous_date);
+            }
         }
     }
 }
